@@ -218,6 +218,10 @@ class Result:
         self.lanes.append({"lane": lane, "verdict": "inconclusive", "why": why})
 
     def violation(self, sig, msg, case=None, check=None, lane="offline-checker"):
+        for v in self.violations:
+            if v["sig"] == sig and v.get("lane") == lane:
+                v["count"] += 1
+                return
         self.violations.append({"sig": sig, "count": 1, "example": {"msg": msg, "case": case or {"kind": "event-log", "bytes_hex": [], "nums": []}}, "check": check, "lane": lane})
 
 
